@@ -173,7 +173,7 @@ def run(ctx: Ctx) -> int:
         # (b2) all truncations, sampled bit flips
         for n in range(len(tg.blob)):
             add(tg, tg.blob[:n], f"truncate {n}", meter=(n % 4 == 0))
-        for bit in rng.sample(range(len(tg.blob) * 8), ctx.pick(1500, 12000)):
+        for bit in rng.sample(range(len(tg.blob) * 8), min(len(tg.blob) * 8, ctx.pick(1500, 12000))):
             b = bytearray(tg.blob)
             b[bit // 8] ^= 1 << (bit % 8)
             add(tg, bytes(b), f"bit {bit}", meter=(bit % 5 == 0))
